@@ -117,6 +117,9 @@ pub enum Action {
     Advance(u64),
     InjectAcceptError(usize, i32),
     KillWorker(usize, bool),
+    /// stop / resume polling a worker slot (its thread is stuck in a synchronous handler)
+    FreezeWorker(usize),
+    ThawWorker(usize),
     ReadyFlip(usize, u8),
     /// nested actions inside dispatch window `.0` (the n-th successful send of the run)
     RacePoll(u64, usize),
@@ -469,7 +472,7 @@ impl Sim {
             for s in 0..nslots {
                 let run = {
                     let ws = self.sh.workers.borrow();
-                    ws[s].state == SlotState::Running && ws[s].fut.is_some() && ws[s].flag.fired()
+                    ws[s].state == SlotState::Running && ws[s].fut.is_some() && ws[s].flag.fired() && !ws[s].frozen
                 };
                 if run {
                     poll_worker(&self.sh, s);
@@ -579,8 +582,11 @@ fn enabled_actions(sim: &Sim) -> Vec<(Action, u32)> {
         let ws = sh.workers.borrow();
         for (s, w) in ws.iter().enumerate() {
             if w.state == SlotState::Running && w.fut.is_some() {
-                if w.flag.fired() {
+                if w.flag.fired() && !w.frozen {
                     en.push((Action::PollWorker(s), cfg.w_step));
+                }
+                if cfg.freeze {
+                    en.push((if w.frozen { Action::ThawWorker(s) } else { Action::FreezeWorker(s) }, 1));
                 }
                 if cfg.kills && sim.o.kills < sim.o.max_kills && sh.accept_alive.get() && !sim.o.stop_issued {
                     en.push((Action::KillWorker(s, false), 1));
@@ -631,7 +637,7 @@ fn enabled_actions(sim: &Sim) -> Vec<(Action, u32)> {
         for ms in [1u64, 100, 499, 500, 510, 1000] {
             en.push((Action::Advance(ms), 1));
         }
-        if cfg.stop {
+        if cfg.stop && cfg.shutdown_timeout_s < 1000 {
             en.push((Action::Advance(cfg.shutdown_timeout_s * 1000), 1));
         }
     }
@@ -1111,6 +1117,16 @@ async fn exec_action(sim: &mut Sim, a: Action) {
             sh.armed_fault.set(Some((tok, errno)));
             sim.o.faults_injected += 1;
             sh.ctx(|ctx| ev!(ctx, "arm accept error {} on l{l}", errno_name(errno)));
+        }
+        Action::FreezeWorker(s) | Action::ThawWorker(s) => {
+            let freeze = matches!(a, Action::FreezeWorker(_));
+            sh.workers.borrow_mut()[s].frozen = freeze;
+            sh.ctx(|ctx| {
+                ev!(ctx, "worker slot {s} {}", if freeze { "frozen" } else { "thawed" });
+                if freeze {
+                    ctx.bump("fault.worker_frozen");
+                }
+            });
         }
         Action::KillWorker(s, panic_mode) => {
             sim.o.kills += 1;
